@@ -24,6 +24,8 @@ def load_meta(name):
     if os.path.exists(am):
         a = json.load(open(am))
         m.update({"property": a.get("property"), "summary": a.get("summary"), "needs": a.get("needs")})
+        if a.get("demo_pkg"):
+            m["demo_pkg"] = a["demo_pkg"].strip("./") or "."
     return m
 
 
